@@ -701,6 +701,11 @@ class Extractor:
         for (rule, frm, to, newtxt) in d["replaces"]:
             wf, wt = token_texts(frm), token_texts(to)
             hf = find_seq(toks, wf, a, b + 1)
+            if "#" in rule:
+                rule, occn = rule.split("#")
+                if int(occn) > len(hf):
+                    raise LostAnchor("%s: REPLACE start anchor occurrence #%s missing in %s %s" % (rel, occn, kind, name))
+                hf = [hf[int(occn) - 1]]
             if len(hf) != 1:
                 raise LostAnchor("%s: REPLACE start anchor matches %d times in %s %s" % (rel, len(hf), kind, name))
             ht = [h for h in find_seq(toks, wt, hf[0], b + 1)]
@@ -782,11 +787,13 @@ class Extractor:
                         if n > len(loop_idx):
                             raise LostAnchor("%s: fn %s has only %d loops, contract wants loop %d" % (rel, name, len(loop_idx), n))
                         return n - 1
-                    want = token_texts(n)
+                    outer = n.startswith("^")   # `@^key`: the OUTERMOST loop holding the key (default: the innermost)
+                    want = token_texts(n[1:] if outer else n)
                     best = None
                     for li, (kw, op) in enumerate(zip(loop_kw, loop_idx)):
                         if find_seq(toks, want, kw, src.tbl[op] + 1):
-                            if best is None or (src.tbl[op] - kw) < (src.tbl[loop_idx[best]] - loop_kw[best]):
+                            size, bsize = (src.tbl[op] - kw), (None if best is None else src.tbl[loop_idx[best]] - loop_kw[best])
+                            if best is None or (size > bsize if outer else size < bsize):
                                 best = li
                     if best is None:
                         raise LostAnchor("%s: no loop of fn %s contains `%s`" % (rel, name, " ".join(want)[:80]))
